@@ -42,6 +42,11 @@ func verifV9Datagram(kind, size int) []byte {
 		w.bytes(verifNondetBytes(4))
 		w.bytes(verifNondetBytes(8))
 	}
+	if kind == dgPartial {
+		w.u16(300)
+		w.u16(8)
+		w.bytes(verifNondetBytes(4))
+	}
 	return w.b[:w.o]
 }
 
@@ -80,7 +85,7 @@ func verifV9Worker(c13 bool) {
 	bodies, want := make([][]byte, N), make([][]byte, N)
 	decoded, publish := make([]bool, N), make([]bool, N)
 	for i := 0; i < N; i++ {
-		bodies[i] = verifV9Datagram(verifCase(dgKinds), size)
+		bodies[i] = verifV9Datagram(verifCase(dgKindsTmpl), size)
 		want[i], decoded[i], publish[i] = verifV9Reference(bodies[i], i, refCache)
 		netflowV9UDPCh <- NetflowV9UDPMsg{verifExporter(i), bodies[i]}
 	}
